@@ -546,6 +546,9 @@ def make_app(programs, state):
             if fspec.get("fileno", True):
                 FAKE_OS.files[fd] = f
             state.files.append(f)
+            for c in prog.get("pre_write", []):
+                write(c.encode("latin-1"))
+                produced.append(c.encode("latin-1"))
             produced.append(f.content[f.pos:])
             state.completed += 1
             return environ["wsgi.file_wrapper"](f, fspec.get("blksize", 8192))
